@@ -317,8 +317,8 @@ func (m *monC14) AfterTx(w *World, tx *TxCtx) {
 	}
 	if tx.AntePassed {
 		src := tx.Payer.String()
-		if tx.Spec.Granter > 0 {
-			src = AddrOf(w.Actors, tx.Spec.Granter-1).String()
+		if len(tx.Granter) > 0 {
+			src = tx.Granter.String()
 		}
 		col := ModuleAddr(authtypes.FeeCollectorName).String()
 		for _, c := range tx.Fee {
